@@ -60,7 +60,8 @@ Definition c04_burst_answer_ok (k : br_case) (a : ans) : bool :=
       let head := match cs_stack cm with top :: _ => Some (bref top) | [] => None end in
       (* a consumer that starts from a block number (also through a target cursor) has no LIB announced yet *)
       let start_lib := if (a_kind a =? 2) || (a_kind a =? 1) then None else Some (cu_lib (a_cur a)) in
-      cursors_ok head start_lib 0 (a_events a) &&
+      (* the LIB height never falls below the LIB the consumer already knows *)
+      cursors_ok head start_lib (match start_lib with Some r => rn r | None => 0 end) (a_events a) &&
       (* the junction named by the burst's undo events *)
       (if a_kind a =? 0 then
          match cu_step (a_cur a) with
